@@ -184,6 +184,20 @@ let process (line : string) : string option =
       let c = int_of_nat (count a) in
       let ids = List.init (c + 2) (fun k -> s_oid (get_node_id_at a (nat_of_int (k + 1)))) in
       Some (String.concat " " ("l" :: string_of_int c :: (if is_empty a then "1" else "0") :: ids))
+  | ["qav"; p; v] ->
+      Some (match handle (int_of_string p) with
+        | None -> "r badhandle"
+        | Some x ->
+            let pv = n_of_int (int_of_string v) in
+            let (w1, o1) = step !dbg !cur.w (OAppendValue (x, pv)) in
+            let (w2, o2) = step !dbg !cur.w (ONew pv) in
+            (match o1, o2 with
+             | OutId x1, OutId x2 ->
+                 let (w3, o3) = step !dbg w2 (OInsert (KAppend, false, x, x2)) in
+                 (match o3 with
+                  | OutUnit -> if nid_eqb x1 x2 && arena_eqb w1.ar w3.ar then "v 1" else "v 0"
+                  | _ -> "v panic")
+             | _, _ -> "v panic"))
   | ["qf"] ->
       Some (String.concat " " ("f" :: List.map (fun k -> string_of_int (int_of_nat k)) (free_list !cur.w.ar)))
   | ["qi"; h] -> Some (match handle (int_of_string h) with Some x -> q_iters x | None -> "r badhandle")
@@ -273,6 +287,9 @@ let monitor (opsf : string) (obsf : string) (outf : string) =
   let hist = ref (-1) and stepn = ref 0 in
   let cur = ref (mfresh ()) and alt : mside option ref = ref None in
   let pending : (string * op option * outcome option * arena) option ref = ref None in
+  (* [fresh]: the tracked arena is the state right before the next command (a dump followed the last
+     mutating command).  A step can only be judged against the documented effect when it is. *)
+  let fresh = ref true in
   let lastcmd = ref "" in
   let report prop msg =
     Printf.fprintf oc "MON %s hist=%d step=%d cmd=[%s] %s\n" prop !hist !stepn !lastcmd msg in
@@ -335,6 +352,7 @@ let monitor (opsf : string) (obsf : string) (outf : string) =
           | _ -> ())
      | _ -> ());
     pending := None;
+    fresh := true;
     cur := { !cur with mar = a' };
     state_checks a' in
   (try
@@ -350,7 +368,7 @@ let monitor (opsf : string) (obsf : string) (outf : string) =
            | ["r"; "ok"] -> Some OutUnit | ["r"; "id"; i] -> Some (OutId (p_id i))
            | ["r"; "err"; e] -> Some (OutErr (p_err e)) | ["r"; "panic"] -> Some (OutPanic N0)
            | ["r"; "diverge"] -> Some OutDiverge | _ -> None) in
-         let setp o = pending := Some (line, o, outcome_of (), !cur.mar) in
+         let setp o = (if !fresh then pending := Some (line, o, outcome_of (), !cur.mar) else pending := None); fresh := false in
          let h1 a f = (match mhandle (int_of_string a) with Some x -> setp (Some (f x)) | None -> ()) in
          let h2 a b f = (match mhandle (int_of_string a), mhandle (int_of_string b) with
            | Some x, Some y -> setp (Some (f x y)) | _ -> ()) in
@@ -363,7 +381,7 @@ let monitor (opsf : string) (obsf : string) (outf : string) =
                cur := { !cur with mever = v :: !cur.mever }
            | _ -> ()) in
          (match toks with
-          | ["hist"; k] -> hist := int_of_string k; stepn := 0; cur := mfresh (); alt := None; pending := None;
+          | ["hist"; k] -> hist := int_of_string k; stepn := 0; cur := mfresh (); alt := None; pending := None; fresh := true;
                            Hashtbl.reset rend_tbl
           | ["new"; v] -> setp (Some (ONew (n_of_int (int_of_string v)))); new_id (int_of_string v)
           | ["appv"; p; v] -> h1 p (fun x -> OAppendValue (x, n_of_int (int_of_string v))); new_id (int_of_string v)
@@ -376,12 +394,12 @@ let monitor (opsf : string) (obsf : string) (outf : string) =
                             (match outcome_of () with Some OutUnit -> cur := { !cur with mever = int_of_string v :: !cur.mever } | _ -> ())
           | ["clear"] -> setp (Some OClear); !cur.mn := 0; Hashtbl.reset !cur.mset; cur := { !cur with mflags = "" }
           | ["reserve"; k] -> setp (Some (OReserve (nat_of_int (int_of_string k))))
-          | ["fork"] -> alt := Some { (mcopy !cur) with mdrops = []; mever = stored !cur.mar }; pending := Some ("fork", None, None, !cur.mar)
+          | ["fork"] -> alt := Some { (mcopy !cur) with mdrops = []; mever = stored !cur.mar }; (if !fresh then pending := Some ("fork", None, None, !cur.mar)); fresh := false
           | ["swap"] ->
               (match !alt with
                | Some a -> let c = !cur in cur := a; alt := Some c
                | None -> ());
-              pending := Some ("swap", None, None, !cur.mar)
+              pending := Some ("swap", None, None, !cur.mar); fresh := false
           | ["serde"] ->
               (match otoks with
                | "s" :: "unsupported" :: _ -> ()
@@ -389,7 +407,7 @@ let monitor (opsf : string) (obsf : string) (outf : string) =
                    bump "C16";
                    let expect = List.map s_tok (encode !cur.mar) in
                    if ts <> expect then report "C16" "serialized token stream differs from the derive's data-model encoding of the arena";
-                   pending := Some ("serde", None, None, !cur.mar)
+                   (if !fresh then pending := Some ("serde", None, None, !cur.mar)); fresh := false
                | _ -> report "C16" ("unexpected observation " ^ obs))
           | ["rend"; v; mode; chunks] ->
               let cs = if chunks = "-" then [] else List.map bytes_of_hex (String.split_on_char ',' chunks) in
@@ -420,6 +438,9 @@ let monitor (opsf : string) (obsf : string) (outf : string) =
               let want = String.concat " " ("l" :: string_of_int c :: (if c = 0 then "1" else "0")
                            :: List.init (c + 2) (fun k -> s_oid (spec_id_at a (nat_of_int (k + 1))))) in
               if want <> obs then report "C11" ("lookup by position: got [" ^ obs ^ "] expected [" ^ want ^ "]")
+          | ["qav"; _; _] ->
+              bump "C03";
+              if obs = "v 0" then report "C03" "append_value(v) does not leave the arena equal to new_node(v) followed by append"
           | ["qf"] ->
               bump "C07";
               let got = List.sort compare (List.filter_map (fun t -> int_of_string_opt t) (List.tl otoks)) in
@@ -454,7 +475,10 @@ let monitor (opsf : string) (obsf : string) (outf : string) =
                    (match spec_de_seq k !cur.mar x with
                     | Some s ->
                         let want = "d " ^ String.concat "," (List.map (function None -> "-" | Some y -> s_idx1 y) (de_spec s pulls)) in
-                        if want <> obs then report "C10" ("pulls " ^ pat ^ " on " ^ which ^ " of " ^ s_id x ^ ": got [" ^ obs ^ "] expected [" ^ want ^ "]")
+                        if want <> obs then begin
+                          report "C10" ("pulls " ^ pat ^ " on " ^ which ^ " of " ^ s_id x ^ ": got [" ^ obs ^ "] expected [" ^ want ^ "]");
+                          report "C09" ("iterator " ^ which ^ " of " ^ s_id x ^ " does not yield exactly the documented sequence under pulls " ^ pat ^ ": got [" ^ obs ^ "] expected [" ^ want ^ "]")
+                        end
                     | None -> report "C02" "sibling walk does not end"))
           | ["qp"; h; mode] ->
               (match mhandle (int_of_string h) with
